@@ -23,7 +23,7 @@ Oracle (float64, written from the property, shares no code with the library):
   top_p_mass       sum of q_i over kept i >= top_p - 1e-6, q = softmax64 of the distribution that ENTERS
                    the nucleus filter (z after the reference top-k filter); top_p<=0 / >=1: no filtering
   shift            tanh_clipping == 0 only: f(l+c) = f(l) for c in {+-3, +-100}, compared tie-aware (probabilities
-                   sorted inside groups of equal logits) with |dP| <= 5e-4
+                   sorted inside groups of equal logits) with |dP| <= 1e-5
   greedy           DecodingStrategy.greedy returns a feasible index whose logp equals the row maximum
   sampling         torch.multinomial / Tensor.multinomial are replaced (scoped) by a seam that answers EVERY
                    index of float32 probability > 0, one after the other, for every row: the action returned
@@ -64,7 +64,7 @@ CHUNK_ROWS = 70000  # rows per work unit (memory / load balance)
 TIE_RTOL = 1e-6
 NORM_TOL = 1e-5
 MASS_TOL = 1e-6
-SHIFT_ATOL = 5e-4
+SHIFT_ATOL = 1e-5  # largest deviation observed on the unchanged tree: 8.8e-8 (float32 rounding of (l+c)/T)
 SOLO_ATOL = 1e-6
 INF = float("inf")
 
